@@ -325,6 +325,21 @@ def lw_owner(ctx):
                     out.append(bad('LW-owner', key, 'signal() called outside a queue job: it can run between the owner\'s test of the result and its waker store in drain_queue', loc=fn.loc(bb), fn=fn.name))
     if n < 4:
         out.append(undecided('LW-owner', 'floor', 'found %d signal() sites, expected at least 4' % n))
+    # ... and the owner stores its waker while it still owns the queue: once the queue is parked (WaitingForPoll) a pool thread may take it
+    # over, run the job to completion and signal() before a later store
+    P = ctx.proto
+    m = 0
+    for (k, fname, _), Ts in P.events.items():
+        if k != 'waker_store':
+            continue
+        m += 1
+        key = '%s|store-before-release' % short(fname)
+        if 'R' in Ts:
+            out.append(bad('LW-owner', key, 'the polling task registers its waker in the result slot after it has released the queue: a pool thread that takes the parked queue over can complete the operation and signal() before the waker is there, and the task is never woken', fn=fname))
+        else:
+            out.append(ok('LW-owner', key, 'waker stored %s' % ('while the queue is still owned' if 'H' in Ts else 'by a task that does not own the queue (check-and-register under the result lock: LW1)'), fn=fname))
+    if m < 2:
+        out.append(undecided('LW-owner', 'floor:stores', 'found %d functions storing a waker in a scheduler future result, expected 2' % m))
     return out
 
 
